@@ -210,6 +210,10 @@ def run_scenarios(kind, tier, seed, workdir, procs=16):
         jobs = _in_child(_mk_c03, tier, seed)
     elif kind == 'C12':
         jobs = _in_child(_mk_c12, tier, seed)
+    elif kind == 'C12S':
+        # for the statistics (C18): without the runs in which the handler's on_connection_lost callback fails - the agent
+        # then never learns that the connection is gone, and "the current connection" of the property does not exist
+        jobs = [j for j in _in_child(_mk_c12, tier, seed) if 'on_connection_lost' not in (j[1].get('handler_fail') or {})]
     elif kind == 'C01':
         jobs = _in_child(_mk_c01, tier, seed)
     else:
